@@ -299,6 +299,12 @@ fn int_strategy() -> BoxedStrategy<(IntTy, bool, String)> {
         }),
         1 => any::<i128>().prop_map(|v| v.to_string()),
         1 => any::<u128>().prop_map(|v| v.to_string()),
+        // extremes of every width (the executor casts the value to the operation's type)
+        2 => (select(vec![7u32, 8, 15, 16, 31, 32, 63, 64, 127]), -3i128..=3, any::<bool>()).prop_map(|(k, d, neg)| {
+            let v = (1i128 << k).wrapping_add(d);
+            (if neg { v.wrapping_neg() } else { v }).to_string()
+        }),
+        1 => select(vec![i128::MIN.to_string(), i128::MAX.to_string(), u128::MAX.to_string(), i64::MIN.to_string(), u64::MAX.to_string()]),
     ];
     (select(tys), any::<bool>(), val).boxed()
 }
